@@ -243,6 +243,8 @@ WITNESSES = {
     "witness:for-over-list": "xs = [1, 2]\nfor e in xs:\n    mon.write(e)\n",
     "witness:literal-plus-literal": "s = \"a\" + \"b\"\nmon.write(s)\n",
     "witness:str-argument-inside-call-argument": "def count(msg):\n    return len(msg)\nmon.write(count(\"xy\"))\n",
+    "witness:str-argument-to-procedure-call-statement": "def say(msg):\n    mon.write(msg)\nsay(\"hi\")\n",
+    "witness:ternary-of-literals-plus-literal": "n = 1\nmon.write((\"a\" if n > 0 else \"b\") + \"c\")\n",
     "witness:loop-variable-after-loop": "for i in range(3):\n    sleep(1)\nmon.write(i)\n",
     "witness:float-list-append-remove-literal": "fs = [1.5, 0.0, 2.5]\nfs.append(0.5)\nfs.remove(0.0)\nmon.write(len(fs))\n",
     "witness:str-list-append-remove-literal": "ws = [\"a\", \"\", \"b\"]\nws.append(\"c\")\nws.remove(\"\")\nmon.write(len(ws))\n",
